@@ -383,7 +383,8 @@ def scalar_mult(ctx):
                     f'range({e}) = {n_bits} iterations: fewer than the {order.bit_length() if order else 256} bits a scalar below the group order can have - the top bit(s) of large private keys are ignored', p.loc(lp))
         else:
             R.bad(rule, key + ' | runs until the scalar is exhausted', f'unrecognised loop `{norm(it)}`', p.loc(lp))
-    body = lp.body
+    from ..core import inert
+    body = [s_ for s_ in lp.body if not inert(s_)]
     # one conditional add on the low bit, one doubling, one shift - in this order
     def idx(pred):
         return [i for i, s_ in enumerate(body) if pred(s_)]
@@ -392,7 +393,7 @@ def scalar_mult(ctx):
     shf_i = idx(lambda s_: norm(s_) in (f'{k} = {k} >> 1', f'{k} >>= 1', f'{k} //= 2', f'{k} = {k} // 2'))
     ok = len(add_i) == 1 and len(dbl_i) == 1 and len(shf_i) == 1 and add_i[0] < dbl_i[0] and add_i[0] < shf_i[0] and len(body) == 3
     R.check(ok, rule, key + ' | double-and-add step', 'add on the low bit, double the addend, shift the scalar by one bit - once each per iteration', 'the loop body is not one conditional add on the low bit, one doubling and a one-bit shift', p.loc(lp))
-    init = [norm(s_) for s_ in fn.body[:fn.body.index(lp)]]
+    init = [norm(s_) for s_ in fn.body[:fn.body.index(lp)] if not inert(s_)]
     R.check('addend = self' in init and any(x.startswith('result = ') and 'point_at_infinity' in x for x in init), rule, key + ' | start values', 'addend = self, result = point at infinity', 'start values of the multiplication changed', p.loc(fn))
 
 
